@@ -1,0 +1,21 @@
+//go:build verif && (linux || darwin || dragonfly || freebsd || netbsd || solaris) && (amd64 || arm64 || mips64x || ppc64 || ppc64le || loong64 || s390x)
+
+package starlark
+
+// Hooks for the C10 check (integer representations). Compiled only with -tags verif.
+
+// VerifDisableSmallInts switches Int to the fallback representation that
+// int_posix64.go uses when the 4GB address-space reservation fails
+// (smallints == 0: every Int is a *big.Int). It must be called before any
+// other use of the package; the two package-level Ints are re-created.
+func VerifDisableSmallInts() bool {
+	smallints = 0
+	zero, one = makeSmallInt(0), makeSmallInt(1)
+	return true
+}
+
+// VerifIntArm reports which arm of the union holds i (true = *big.Int arm), as get() sees it.
+func VerifIntArm(i Int) bool {
+	_, big := i.get()
+	return big != nil
+}
